@@ -124,42 +124,70 @@ def field_index(prog, adt, name):
 
 
 def check_decorations(prog, rep):
+    """R14.2 on path summaries: on every path without a target error exactly the decorations whose effective colour is
+    Some are filled, each with its own rectangle (font.<d>.get_bounding_box(position, width)) and its own colour."""
     STYLE = "embedded_graphics::mono_font::mono_text_style::MonoTextStyle"
     dd = prog.method1(STYLE, "draw_decorations", None)
-    org = Origins(dd)
     fi = lambda n: field_index(prog, STYLE, n)
     ff = lambda n: field_index(prog, MONOFONT, n)
-    selff = lambda i: ("field", ("deref", ("param", 1, "self")), i)
-    font = ("deref", selff(fi("font")))
-    pairs = []
-    for bi in sorted(org.cfg.live_blocks()):
-        t = dd.body["blocks"][bi]["t"]
-        if t and t["k"] == "call" and t["f"].get("name") == "fill_solid":
-            args = [strip_refs(a) for a in org.term_args(bi)]
-            rect, color = args[1], args[2]
-            m = match(rect, ("call", "*DecorationDimensions::get_bounding_box", "_", ("?dim", "?pos", "?w")))
-            cm = find(color, ("call", "*DecorationColor::<C>::effective_color", "_", ("?dc", "?tc")))
-            if m is None or not cm:
-                rep.fail("R14.2", "decoration-call", "fill_solid in draw_decorations with an unrecognised rectangle/colour: %s / %s" % (show(rect), show(color)), status="undecided", at=t.get("sp", ""), fn=dd.path)
+    selff = lambda i: ("field", ("param", 1, "self"), i)
+    font = selff(fi("font"))
+    DECOS = ("strikethrough", "underline")
+
+    def eff_colour(t):
+        """-> decoration name if t is self.<d>_color.effective_color(self.text_color)"""
+        if t[0] == "call" and t[1].endswith("effective_color") and len(t[3]) == 2 and t[3][1] == selff(fi("text_color")):
+            for nm in DECOS:
+                if t[3][0] == selff(fi(nm + "_color")):
+                    return nm
+        return None
+    bad = []
+    n_paths = 0
+    try:
+        summs = Paths(prog).of(dd)
+    except Unsupported as e:
+        summs = []
+        bad.append("cannot summarise draw_decorations: %s" % e)
+    for sm in summs:
+        n_paths += 1
+        tested = {}
+        failed = False
+        for fct in sm.facts:
+            if fct[0] == "variant":
+                d = eff_colour(fct[1])
+                if d is not None and len(fct[2]) == 1:
+                    tested[d] = fct[2][0]
+                elif fct[1][0] == "call" and fct[1][1].split("::")[-1] == "fill_solid":
+                    failed = failed or fct[2] == ("Err",)
+                else:
+                    bad.append("a path depends on %s" % show_fact(fct))
+            else:
+                bad.append("a path depends on %s" % show_fact(fct))
+        drawn = []
+        for e in sm.effects:
+            c = e[1] if e[0] == "call" else None
+            if c is None or c[1].split("::")[-1] != "fill_solid" or len(c[3]) != 3 or c[3][0] != ("param", 4, "target"):
+                bad.append("unexpected effect %s" % show_eff(e))
                 continue
-            dim = strip_refs(m["?dim"])
+            rect, colour = c[3][1], c[3][2]
+            m = match(rect, ("call", "*DecorationDimensions::get_bounding_box", "_", ("?dim", ("param", 3, "position"), ("param", 2, "width"))))
             which = None
-            for nm in ("strikethrough", "underline"):
-                if dim == ("field", strip_refs(font), ff(nm)):
-                    which = nm
-            dc = strip_refs(cm[0][1]["?dc"])
-            cwhich = None
-            for nm in ("strikethrough_color", "underline_color"):
-                if dc == strip_refs(selff(fi(nm))):
-                    cwhich = nm
-            wok = strip_refs(m["?w"]) == ("param", 2, "width") and strip_refs(m["?pos"]) == ("param", 3, "position")
-            tc_ok = strip_refs(cm[0][1]["?tc"]) == strip_refs(selff(fi("text_color")))
-            pairs.append((which, cwhich))
-            rep.check(which is not None and cwhich == which + "_color" and wok and tc_ok, "R14.2", "decoration:" + str(cwhich),
-                      "decoration rectangle from font.%s is filled with %s (width/position/text colour fallback ok: %s/%s)" % (which, cwhich, wok, tc_ok),
-                      at=t.get("sp", ""), fn=dd.path)
-    rep.check(sorted(p[0] or "" for p in pairs) == ["strikethrough", "underline"], "R14.2", "decoration:both",
-              "draw_decorations must draw exactly the strikethrough and the underline rectangle; found %s" % pairs, at=dd.span, fn=dd.path)
+            if m is not None:
+                for nm in DECOS:
+                    if m["?dim"] == ("field", font, ff(nm)):
+                        which = nm
+            cwhich = eff_colour(colour[1]) if colour[0] == "payload" else None
+            if which is None or cwhich != which:
+                bad.append("a decoration rectangle from font.%s (position/width as given) is filled with the %s colour: %s" % (which, cwhich, show_eff(e)))
+            drawn.append(which)
+        if not failed:
+            want = sorted(d for d in DECOS if tested.get(d) == "Some")
+            if sorted(tested) != sorted(DECOS):
+                bad.append("a path does not test both decoration colours (%s)" % sorted(tested))
+            elif sorted(x or "?" for x in drawn) != want:
+                bad.append("with %s the path draws %s" % (tested, drawn))
+    rep.check(not bad and n_paths >= 4, "R14.2", "decoration:both",
+              "draw_decorations must draw exactly the strikethrough and the underline rectangle, each iff its colour is set, each with its own colour: %s" % "; ".join(sorted(set(bad))[:3]), at=dd.span, fn=dd.path)
     # width handed to draw_decorations by draw_string = next.x - position.x
     ds = prog.method1(STYLE, "draw_string", "embedded_graphics::text::renderer::TextRenderer")
     org = Origins(ds)
